@@ -180,7 +180,20 @@ def install(I, M, attractor_model=None):
             if name == 'and': return a & gg(args[1])
             if name == 'or': return a | gg(args[1])
             if name == 'iff': return ~(a ^ gg(args[1]))
+            if name == 'xor': return a ^ gg(args[1])
+            if name == 'imp': return ~a | gg(args[1])
+            if name == 'and_not': return a & ~gg(args[1])
             if name == 'not': return ~a
+            if name == 'is_false': return a == 0
+            if name == 'is_true': return a == M.full
+            if name in ('for_all', 'forall'):
+                vs = gg(args[1]); vs = vs.items if isinstance(vs, RVec) else vs.vec.items[vs.lo:vs.hi]
+                return M.forall(a, vs)
+            if name in ('var_exists', 'var_project', 'var_for_all'):
+                return M.exists(a, [args[1]]) if name != 'var_for_all' else M.forall(a, [args[1]])
+            if name == 'project': 
+                vs = gg(args[1]); vs = vs.items if isinstance(vs, RVec) else vs.vec.items[vs.lo:vs.hi]
+                return M.exists(a, vs)
             if name == 'exists':
                 vs = gg(args[1]); vs = vs.items if isinstance(vs, RVec) else vs.vec.items[vs.lo:vs.hi]
                 return M.exists(a, vs)
@@ -190,6 +203,15 @@ def install(I, M, attractor_model=None):
             if name == 'new': return gg(args[0])
             if name == 'as_bdd': return args[0] if isinstance(args[0], Ptr) else Ptr(Cell(args[0]))
             if name == 'into_bdd': return gg(args[0])
+            if name in ('approx_cardinality', 'exact_cardinality'):
+                # exact number of elements (the model has at most 2^9 valuations, far below the f64 mantissa)
+                x = gg(args[0]); W = M.W
+                tot = z3.BitVecVal(0, 16)
+                for i in range(W): tot = tot + z3.ZeroExt(15, z3.Extract(i, i, x))
+                return tot
+            if name == 'is_singleton':
+                x = gg(args[0]); return z3.And(x != 0, (x & (x - 1)) == 0)
+            if name == 'copy': return gg(args[1])
             return NotImplemented
         if base.endswith('FixedPoints::symbolic'):
             I.models_used.add('FixedPoints::symbolic')
